@@ -152,7 +152,7 @@ package saml
 //@ contract (*ServiceProvider).getIDPSigningCerts
 //@ requires[cfg] md: sp.IDPMetadata != nil
 //@ -- only certificates of key descriptors with use "signing" or without use become trust roots
-//@ assert@call[C01] append #1 (dst []string, src []string) uses keyDescriptor KeyDescriptor signing_use_only:
+//@ assert@call[C01,C18] append #1 (dst []string, src []string) uses keyDescriptor KeyDescriptor signing_use_only:
 //@    keyDescriptor.Use == "" || keyDescriptor.Use == "signing"
 //@ ensures[C01,C09] nonempty: err == nil ==> len(result) > 0
 //@ -- every trust root handed to the signature library is a parsed certificate (a nil root is dereferenced there)
@@ -164,23 +164,23 @@ package saml
 //@ contract (*ServiceProvider).getCertBasedOnFingerprint
 //@ requires el: el != nil
 //@ requires[cfg] fp: sp.IDPCertificateFingerprint != nil && sp.IDPCertificateFingerprintAlgorithm != nil
-//@ ensures[C01] single: err == nil ==> len(result) == 1
+//@ ensures[C01,C18] single: err == nil ==> len(result) == 1
 //@ records ret: ReturnedFingerprintCerts(sp, el, result, err)
 
 //@ contract (*ServiceProvider).validateSignature
 //@ requires el: el != nil
 //@ -- the roots handed to the validation context come from exactly one configured source
-//@ derive@call[C01] NewDefaultValidationContext #1 (store dsig.X509CertificateStore) uses certs []*x509.Certificate config_roots:
+//@ derive@call[C01,C18] NewDefaultValidationContext #1 (store dsig.X509CertificateStore) uses certs []*x509.Certificate config_roots:
 //@    sameCerts(storeRoots(store), certs) && len(certs) > 0 && sp.IDPMetadata != nil &&
 //@    ((sp.IDPCertificateFingerprint == nil && sp.IDPCertificateFingerprintAlgorithm == nil && sp.IDPCertificate == nil && ReturnedSigningCerts(sp, certs, nil)) ||
 //@     (sp.IDPCertificateFingerprint != nil && sp.IDPCertificateFingerprintAlgorithm != nil && sp.IDPCertificate == nil && ReturnedFingerprintCerts(sp, el, certs, nil)) ||
 //@     (sp.IDPCertificateFingerprint == nil && sp.IDPCertificateFingerprintAlgorithm == nil && sp.IDPCertificate != nil && len(certs) == 1 && ReturnedParseCert(*sp.IDPCertificate, certs[0], nil)))
 //@    |- TrustedCerts(sp, el, certs)
 //@ -- what is validated is the detached copy of the element passed in, in the context built from those roots
-//@ derive@call[C01] Validate #1 (ctx *dsig.ValidationContext, d *etree.Element) uses certs []*x509.Certificate validates_this_element:
+//@ derive@call[C01,C18] Validate #1 (ctx *dsig.ValidationContext, d *etree.Element) uses certs []*x509.Certificate validates_this_element:
 //@    DetachedFrom(d, el) && sameCerts(storeRoots(CtxStore(ctx)), certs) && TrustedCerts(sp, el, certs)
 //@    |- CtxTrusted(sp, el, ctx)
-//@ ensures[C01] sigok: err == nil && sp.SignatureVerifier == nil ==> SigOK(sp, el)
+//@ ensures[C01,C18] sigok: err == nil && sp.SignatureVerifier == nil ==> SigOK(sp, el)
 
 //@ contract unmarshalElement
 //@ trusted
